@@ -286,6 +286,18 @@ def r08_2(chk, sht):
         loop = e.loops[-1]
         chk.ob("R08.2", SHT, q, "complex branch: l runs over 0 .. int(sqrt(n)) - 1",
                loop.lo == P.const(0) and "sqrt(len(" in loop.hi.key(), node=e.node, found=f"range({loop.lo},{loop.hi})")
+        # (L + 1)^2 = n: the number of degrees is int(sqrt(n)) exactly, every degree gets its entry and the array has no other entries
+        cnt = [P.atom(("call", P.name("int"), (P.atom(("call", P.name("sqrt"), (P.atom(("call", P.name("len"), (coef,))),))),))),
+               P.atom(("call", P.name("int"), (P.atom(("call", P.name("sqrt"), (P.atom(("attr", coef, "size")),))),)))]
+        tgt = e.target.as_atom()[1].as_atom()
+        size = None
+        if tgt and tgt[0] == "obj":
+            ia = tgt[3].as_atom()
+            if ia and call_name(ia) in ("numpy.empty", "numpy.zeros") and ia[2]:
+                size = ia[2][0]
+        chk.ob("R08.2", SHT, q, "complex branch: the number of degrees is int(sqrt(n)) (from (L + 1)^2 = n), and the spectrum has exactly one entry per "
+               "degree, each of them assigned", any(loop.hi == c for c in cnt) and size is not None and size == loop.hi, node=e.node,
+               fingerprint="cplx-degrees", expected="range(int(sqrt(n))) over an array of int(sqrt(n)) entries", found=f"range({loop.hi}) over {size} entries")
     # real branch
     pat = [e for e in ev.events if e.kind == "assign" and e.name == "pattern"]
     if not pat:
@@ -321,6 +333,22 @@ def r08_2(chk, sht):
                 okp = bool(m and m[0] == "lv" and rng[2][0].key() == Lp1.key())
     chk.ob("R08.2", SHT, q, "real branch: pattern lists the degree of every packed position in m-major order "
                              "(concatenate(arange(m, L+1) for m in range(L+1)))", okp, node=pat[0].node, found=str(pterm)[:200])
+    # (L + 1)(L + 2) / 2 = n  =>  L = (-3 + sqrt(8 n + 1)) / 2: the number of degrees the pattern, the accumulator and the m = 0 block share
+    if Lp1 is not None:
+        want = []
+        for n_ in (P.atom(("call", P.name("len"), (coef,))), P.atom(("attr", coef, "size"))):
+            root = P.atom(("call", P.name("sqrt"), (8 * n_ + 1,)))
+            want.append(P.atom(("call", P.name("int"), (P.atom(("bin", "FloorDiv", root - 3, P.const(2))),))) + 1)
+            want.append(P.atom(("call", P.name("int"), ((root - 3) / 2,))) + 1)
+        spec_sz = None
+        for e0 in ev.events:
+            if e0.kind == "assign" and e0.name == "spectrum" and e0.guards and e0.value.as_atom() and e0.value.as_atom()[0] == "obj" and e0.guards[0][0].key() == gk:
+                ia = e0.value.as_atom()[3].as_atom()
+                if ia and call_name(ia) in ("numpy.zeros",) and ia[2] and spec_sz is None:
+                    spec_sz = ia[2][0]
+        chk.ob("R08.2", SHT, q, "real branch: the number of degrees is int((-3 + sqrt(8 n + 1)) // 2) + 1 (from (L + 1)(L + 2)/2 = n) and the accumulator "
+               "(zero-initialised) has exactly that many entries", any(Lp1 == w for w in want) and spec_sz is not None and spec_sz == Lp1, node=pat[0].node,
+               fingerprint="real-degrees", expected=str(want[0]), found=f"L + 1 = {Lp1}; accumulator of {spec_sz} entries")
     adds = [e for e in ev.events if e.kind == "call" and call_name(e.value.as_atom() or ()) == "numpy.add.at"]
     chk.need(len(adds) == 2, f"{q}: expected two np.add.at accumulations in the real branch")
     weights = []
